@@ -1,16 +1,20 @@
 #!/bin/sh
-# usage: tools/confirm_seed.sh <worktree> <features-for-demo or ->  : confirms a seeded change (suite green with change, demo fails with / passes without)
-W="$1"; F="$2"
-cd "$W" || exit 2
+# usage: tools/confirm_seed.sh <id> <dir with patch.diff and tests/seeded_demo.rs> <features-for-demo or ->
+# Confirms a seeded change in a fresh scratch worktree WITHOUT git stash (the stash stack is shared between worktrees):
+# suite green with the change, demo fails with it and passes without it.
+ID="$1"; SRC="$2"; F="$3"
+W=/var/tmp/seedchk_$ID
+git -C /repo worktree remove --force $W 2>/dev/null; rm -rf $W
+git -C /repo worktree add -q --detach $W HEAD || exit 2
+cd $W || exit 2
 export CARGO_TARGET_DIR=/var/tmp/seed_target
 FE=""; [ "$F" != "-" ] && FE="--features $F"
-mv tests/seeded_demo.rs /var/tmp/seeded_demo.rs.$$ 
-cargo test --workspace --no-fail-fast --offline >/var/tmp/suite.$$ 2>&1; S1=$?
-FAILS=$(grep -c "^test result: FAILED" /var/tmp/suite.$$)
-mv /var/tmp/seeded_demo.rs.$$ tests/seeded_demo.rs
-cargo test --offline $FE --test seeded_demo >/var/tmp/demo_with.$$ 2>&1; D1=$?
-git stash push -q -- src
-cargo test --offline $FE --test seeded_demo >/var/tmp/demo_without.$$ 2>&1; D2=$?
-git stash pop -q
-echo "$W suite_rc=$S1 failed_targets=$FAILS demo_with_change_rc=$D1 demo_without_change_rc=$D2"
-rm -f /var/tmp/suite.$$ /var/tmp/demo_with.$$ /var/tmp/demo_without.$$
+git apply "$SRC/patch.diff" || { echo "$ID patch does not apply"; exit 3; }
+cargo test --workspace --no-fail-fast --offline >/var/tmp/suite_$ID.log 2>&1; S1=$?
+FAILS=$(grep -c "^test result: FAILED" /var/tmp/suite_$ID.log)
+cp "$SRC/tests/seeded_demo.rs" tests/seeded_demo.rs
+cargo test --offline $FE --test seeded_demo >/var/tmp/demo_with_$ID.log 2>&1; D1=$?
+git apply -R "$SRC/patch.diff"
+cargo test --offline $FE --test seeded_demo >/var/tmp/demo_without_$ID.log 2>&1; D2=$?
+echo "$ID suite_with_change_rc=$S1 failed_targets=$FAILS demo_with_change_rc=$D1 demo_without_change_rc=$D2"
+cd /; git -C /repo worktree remove --force $W; rm -rf $W
